@@ -160,6 +160,7 @@ def bucketRows (cfg : Cfg) (q : Query) (store : List Rec) : Option (List Rec) :=
   match q.filter with
   | none => none
   | some g =>
+    if cfg.pagedQueriesBypass && (q.from_ != 0 || q.limit != 0) then none else
     let go (hints : List Hint) : List Rec :=
       let c0 := candidates cfg store hints
       let c1 := if cfg.bucketChecksAttr then c0.filter (carries q.slot) else c0
@@ -175,14 +176,14 @@ def cuts (q : Query) : Bool := q.from_ != 0 || q.limit != 0 || q.maxResults != 0
 def good (cfg : Cfg) : Cfg := { cfg with
   indexableOps := [.eq, .strIn, .i32In, .i64In], excludesSpecialPaths := true, planOrBypassOnSubGroups := true,
   scanEqCanonical := true, bucketPagingAfterFilter := true, scanPagingAfterFilter := true, labelReattach := true,
-  bucketChecksAttr := true, lookupInDedupes := true, unionDedupes := true, bucketWindowTimeOnly := true }
+  pagedQueriesBypass := true, bucketChecksAttr := true, lookupInDedupes := true, unionDedupes := true, bucketWindowTimeOnly := true }
 
 /-- single-fact repairs, with the finding each one stands for -/
 def repairs (cfg : Cfg) : List (String × (Cfg → Cfg)) :=
   (if !cfg.scanEqCanonical then [("C08-scan-equality-not-canonical", fun c => { c with scanEqCanonical := true })] else []) ++
   (if !cfg.excludesSpecialPaths then [("C08-special-path-hinted", fun c => { c with excludesSpecialPaths := true })] else []) ++
-  (if !(cfg.bucketPagingAfterFilter && cfg.scanPagingAfterFilter) then
-    [("C08-paging-before-residual", fun c => { c with bucketPagingAfterFilter := true, scanPagingAfterFilter := true })] else []) ++
+  (if !(cfg.bucketPagingAfterFilter && cfg.scanPagingAfterFilter) && !cfg.pagedQueriesBypass then
+    [("C08-paging-before-residual", fun c => { c with pagedQueriesBypass := true })] else []) ++
   (if !cfg.labelReattach then [("C08-indexed-leg-label-dropped", fun c => { c with labelReattach := true })] else []) ++
   (if !cfg.bucketChecksAttr then [("C08-bucket-route-ignores-index-attribute", fun c => { c with bucketChecksAttr := true })] else []) ++
   (if !cfg.bucketWindowTimeOnly then [("C08-window-on-key-index", fun c => { c with bucketWindowTimeOnly := true })] else []) ++
@@ -258,7 +259,8 @@ def run (args : List String) : IO UInt32 := do
     indexableOps := ops, excludesSpecialPaths := yes kv "excludesSpecialPaths",
     planOrBypassOnSubGroups := yes kv "planOrBypassOnSubGroups", scanEqCanonical := yes kv "scanEqCanonical",
     bucketPagingAfterFilter := yes kv "bucketPagingAfterFilter", scanPagingAfterFilter := yes kv "scanPagingAfterFilter",
-    labelReattach := yes kv "labelReattach", bucketChecksAttr := yes kv "bucketChecksAttr",
+    labelReattach := yes kv "labelReattach", pagedQueriesBypass := yes kv "pagedQueriesBypass",
+    bucketChecksAttr := yes kv "bucketChecksAttr",
     lookupInDedupes := yes kv "lookupInDedupes", unionDedupes := yes kv "unionDedupes",
     bucketWindowTimeOnly := yes kv "bucketWindowTimeOnly" }
   lineLoop step { cfg := cfg, store := [] }
